@@ -214,8 +214,13 @@ class SidemanticAdapter(BaseAdapter):
             "models": [self._export_model(model) for model in graph.models.values()],
         }
 
-        if graph.metrics:
-            data["metrics"] = [self._export_metric(metric, graph) for metric in graph.metrics.values()]
+        # Model-level time_comparison/conversion metrics are auto-registered at graph level by
+        # add_model(); they are exported with their model and must not be repeated here (the
+        # re-imported file would otherwise fail with "Measure ... already exists").
+        model_level = {id(metric) for model in graph.models.values() for metric in model.metrics}
+        graph_metrics = [metric for metric in graph.metrics.values() if id(metric) not in model_level]
+        if graph_metrics:
+            data["metrics"] = [self._export_metric(metric, graph) for metric in graph_metrics]
 
         if graph.parameters:
             data["parameters"] = [self._export_parameter(parameter) for parameter in graph.parameters.values()]
